@@ -1345,3 +1345,127 @@ Proof.
   destruct (region_state w1 (o_region o0)); inversion H; subst; [|exact T1].
   eapply tframe_TreeG; [apply tframe_set_futs|exact T1].
 Qed.
+
+(* ---------- pframe: lid / full / region / parent of every object and every local-id index are unchanged ---------- *)
+Definition pcore (o : obj) : N * N * N * N := (o_lid o, o_full o, o_region o, o_parent o).
+Definition pframe (w w' : world) : Prop :=
+  (forall g, option_map pcore (get_obj w' g) = option_map pcore (get_obj w g)) /\
+  (forall r, option_map r_local (get_rs w' r) = option_map r_local (get_rs w r)).
+
+Lemma pframe_refl : forall w, pframe w w.
+Proof. split; reflexivity. Qed.
+Lemma pframe_trans : forall a b c, pframe a b -> pframe b c -> pframe a c.
+Proof. intros a b c [H1 H2] [H3 H4]. split; intros; [rewrite H3, H1|rewrite H4, H2]; reflexivity. Qed.
+
+Lemma pframe_obj : forall w w' g a', pframe w w' -> get_obj w' g = Some a' ->
+  exists a, get_obj w g = Some a /\ o_lid a' = o_lid a /\ o_full a' = o_full a /\ o_region a' = o_region a /\ o_parent a' = o_parent a.
+Proof.
+  intros w w' g a' [H _] E. specialize (H g). rewrite E in H. cbn in H. destruct (get_obj w g) as [a|]; cbn in H; [|discriminate].
+  exists a. unfold pcore in H. inversion H. auto.
+Qed.
+Lemma pframe_obj_rev : forall w w' g a, pframe w w' -> get_obj w g = Some a ->
+  exists a', get_obj w' g = Some a' /\ o_lid a' = o_lid a /\ o_full a' = o_full a /\ o_region a' = o_region a /\ o_parent a' = o_parent a.
+Proof.
+  intros w w' g a [H _] E. specialize (H g). rewrite E in H. cbn in H. destruct (get_obj w' g) as [a'|]; cbn in H; [|discriminate].
+  exists a'. unfold pcore in H. inversion H. auto.
+Qed.
+Lemma pframe_rs : forall w w' r rs', pframe w w' -> get_rs w' r = Some rs' -> exists rs, get_rs w r = Some rs /\ r_local rs' = r_local rs.
+Proof.
+  intros w w' r rs' [_ H] E. specialize (H r). rewrite E in H. cbn in H. destruct (get_rs w r) as [rs|]; cbn in H; [|discriminate].
+  exists rs. split; congruence.
+Qed.
+Lemma pframe_rs_rev : forall w w' r rs, pframe w w' -> get_rs w r = Some rs -> exists rs', get_rs w' r = Some rs' /\ r_local rs' = r_local rs.
+Proof.
+  intros w w' r rs [_ H] E. specialize (H r). rewrite E in H. cbn in H. destruct (get_rs w' r) as [rs'|]; cbn in H; [|discriminate].
+  exists rs'. split; congruence.
+Qed.
+
+Lemma pframe_Base : forall w w', pframe w w' -> Base w -> Base w'.
+Proof.
+  intros w w' F [K A]. split.
+  - intros g a' E. destruct (pframe_obj _ _ _ _ F E) as (a & Ea & _ & L2 & _). rewrite L2. eauto.
+  - intros r rs' l f E1 E2. destruct (pframe_rs _ _ _ _ F E1) as (rs & Ers & L). rewrite L in E2.
+    destruct (A _ _ _ _ Ers E2) as (a & Ea & Hl & Hr). destruct (pframe_obj_rev _ _ _ _ F Ea) as (a' & Ea' & L1 & _ & L3 & _).
+    exists a'. intuition congruence.
+Qed.
+
+Lemma pframe_of_pres : forall w w',
+  (forall g a', get_obj w' g = Some a' -> exists a, get_obj w g = Some a /\ o_lid a' = o_lid a /\ o_full a' = o_full a /\
+      o_region a' = o_region a /\ o_parent a' = o_parent a) ->
+  (forall g a, get_obj w g = Some a -> exists a', get_obj w' g = Some a') ->
+  (forall r0 rs', get_rs w' r0 = Some rs' -> exists rs0, get_rs w r0 = Some rs0 /\ r_local rs' = r_local rs0) ->
+  (forall r0 rs0, get_rs w r0 = Some rs0 -> exists rs', get_rs w' r0 = Some rs') ->
+  pframe w w'.
+Proof.
+  intros w w' H1 H2 H3 H4. split.
+  - intros g. destruct (get_obj w' g) as [a'|] eqn:E'.
+    + destruct (H1 _ _ E') as (a & Ea & L1 & L2 & L3 & L4). rewrite Ea. cbn. unfold pcore. congruence.
+    + destruct (get_obj w g) as [a|] eqn:E; [|reflexivity]. destruct (H2 _ _ E) as (a' & Ea'). congruence.
+  - intros r. destruct (get_rs w' r) as [rs'|] eqn:E'.
+    + destruct (H3 _ _ E') as (rs0 & E0 & L). rewrite E0. cbn. congruence.
+    + destruct (get_rs w r) as [rs0|] eqn:E; [|reflexivity]. destruct (H4 _ _ E) as (rs' & Ers'). congruence.
+Qed.
+
+Lemma pframe_unparent : forall w r f q w', keys_ok w -> unparent_object w r f q = Some w' -> pframe w w'.
+Proof.
+  intros w r f q w' K H. pose proof H as H0. unfold unparent_object in H0. bind_inv H0. bind_inv H0. clear H0.
+  destruct (unparent_pres _ _ _ _ _ _ _ K E E0 H) as (PF & PB & RF & RB).
+  apply pframe_of_pres.
+  - intros g a' Eg. destruct (PF _ _ Eg) as (a & Ea & L1 & L2 & L3 & L4 & _). eauto 10.
+  - intros g a Eg. destruct (PB _ _ Eg) as (a' & Ea' & _). eauto.
+  - exact RF.
+  - intros r0 rs0 Er. destruct (RB _ _ Er) as (rs' & Ers' & _). eauto.
+Qed.
+
+Lemma pframe_parent : forall w r f h w', keys_ok w -> parent_object w r f h = Some w' -> pframe w w'.
+Proof.
+  intros w r f h w' K H. pose proof H as H0. unfold parent_object in H0. bind_inv H0. bind_inv H0. clear H0.
+  destruct (parent_pres _ _ _ _ _ _ _ K E E0 H) as (PO & PR).
+  pose proof (frame_parent_object _ _ _ _ _ K H) as F.
+  apply pframe_of_pres.
+  - intros g a' Eg. destruct (PO _ _ Eg) as (a & Ea & L1 & L2 & L3 & L4 & _). eauto 10.
+  - intros g a Eg. destruct (frame_obj_rev _ _ _ _ F Eg) as (a' & Ea' & _). eauto.
+  - exact PR.
+  - intros r0 rs0 Er. destruct (frame_rs_rev _ _ _ _ F Er) as (rs' & Ers' & _). eauto.
+Qed.
+
+Lemma pframe_set_rs : forall w r rs rs', get_rs w r = Some rs -> r_local rs' = r_local rs -> pframe w (set_rs w r rs').
+Proof.
+  intros w r rs rs' E L. split; [reflexivity|]. intros r0. rewrite get_rs_set_rs. destruct (r0 =? r) eqn:Q; [|reflexivity].
+  apply N.eqb_eq in Q. subst. rewrite E. cbn. congruence.
+Qed.
+Lemma pframe_set_futs : forall w fs, pframe w (set_futs w fs).
+Proof. split; reflexivity. Qed.
+
+(* ---------- first loop of untrack_object: every child is detached ---------- *)
+Lemma odet_cons_ext : forall O f fs g, oset (odet O fs) f None g = odet O (f :: fs) g.
+Proof.
+  intros. unfold oset, odet. cbn [mem existsb]. destruct (g =? f); cbn [orb]; reflexivity.
+Qed.
+
+Lemma unparent_children_TreeG : forall ids w O K r rs w', Base w -> TreeG w O K -> get_rs w r = Some rs -> NoDup ids ->
+  (forall c cf, In c ids -> aget c (r_local rs) = Some cf -> O cf = None) ->
+  unparent_children w r ids = Some w' ->
+  TreeG w' (odet O (fulls rs ids)) K /\ pframe w w'.
+Proof.
+  induction ids as [|c t IH]; intros w O K r rs w' Bw T Ers ND HO H; simpl in H.
+  - inversion H; subst. split; [|apply pframe_refl]. eapply TreeG_ext; [|exact T]. intros g. reflexivity.
+  - rewrite Ers in H. cbn [bind] in H. destruct (aget c (r_local rs)) as [cf|] eqn:Ec; [|discriminate].
+    bind_inv H. rename o into co. bind_inv H. rename w0 into w1. pose proof Bw as [Kw W2].
+    destruct (W2 _ _ _ _ Ers Ec) as (co' & Eco' & Hl & Hr). rewrite E in Eco'. inversion Eco'; subst co'.
+    assert (T1 : TreeG w1 (oset O cf None) K).
+    { eapply (TreeG_unparent w O K r cf (o_parent co) co rs w1); eauto; [rewrite Hl; exact Ec|].
+      unfold epar. rewrite (Kw _ _ E), (HO c cf (or_introl eq_refl) Ec). reflexivity. }
+    pose proof (pframe_unparent _ _ _ _ _ Kw E0) as F1. pose proof (pframe_Base _ _ F1 Bw) as B1.
+    destruct (pframe_rs_rev _ _ _ _ F1 Ers) as (rs1 & Ers1 & L1).
+    assert (Hnc : ~ In c t) by (inversion ND; assumption). assert (NDt : NoDup t) by (inversion ND; assumption).
+    destruct (IH w1 (oset O cf None) K r rs1 w' B1 T1 Ers1 NDt) as [T2 F2]; [|exact H|].
+    + intros c' cf' Ic' Ec'. rewrite L1 in Ec'. unfold oset. destruct (cf' =? cf) eqn:Q.
+      * apply N.eqb_eq in Q. subst cf'. destruct (W2 _ _ _ _ Ers Ec') as (a & Ea & Hla & _). rewrite E in Ea. inversion Ea; subst a. congruence.
+      * eapply HO; [right; exact Ic'|exact Ec'].
+    + split; [|eapply pframe_trans; eauto].
+      eapply TreeG_ext; [|exact T2]. intros g. rewrite (fulls_local rs rs1 t L1).
+      assert (Hfs : fulls rs (c :: t) = cf :: fulls rs t) by (unfold fulls; simpl; rewrite Ec; reflexivity).
+      rewrite Hfs. unfold odet, oset. cbn [mem existsb]. destruct (g =? cf); cbn [orb]; [|reflexivity].
+      destruct (mem g (fulls rs t)); reflexivity.
+Qed.
